@@ -4,8 +4,8 @@ CONSTANTS NClasses = 2
  Nla = {"none", "one"}
  ZeroK = FALSE
  MaxMarks = 2
- WithDeps = TRUE
+ WithDeps = FALSE
  MaxDeps = 2
- OnlyFaulty = FALSE
+ OnlyFaulty = TRUE
 INVARIANT Emit
 CHECK_DEADLOCK FALSE
